@@ -13,6 +13,9 @@ pub(crate) use timezone::TimeZone;
 mod parser;
 mod rule;
 
+#[cfg(chrono_verif)]
+pub mod verif;
+
 /// Unified error type for everything in the crate
 #[derive(Debug)]
 pub(crate) enum Error {
